@@ -9,6 +9,11 @@ the open entries of KNOWN_FINDINGS.json by vlib.run_pipeline; full text in FINDI
               the results are the zero / empty results.  The Lean model returns the zero results and is not compared
               on this class.
 
+ c03-edge:F4  SparseMatrixBCSR::extract_diag with non-square blocks: the scalar matrix is not square, the member only
+              compares the block counts; BlockHeight > BlockWidth reads m[i][i] outside the block (SIGSEGV at Q),
+              BlockHeight < BlockWidth returns block-diagonal entries that are not a main diagonal.  Oracle: must be
+              reported (abort).  The model is compared for bh < bw only.
+
 Formerly c03-edge:F1 (BCSR row_norm2 took the square root per block) and c03-edge:F2 (CSR scaled row_norm2sqr used
 scal[row]) are fixed in /repo (371e809c8, 43103d013); their input classes (several blocks per row; general scal with
 rows <, =, > cols) are part of the regular stream and their original inputs are in the corpus.
@@ -376,6 +381,69 @@ CORPUS = [
 
 
 # ---------------------------------------------------------------------------------------------
+# deterministic corner cases of the five sorted-merge products (always part of the corpus, every tier)
+# ---------------------------------------------------------------------------------------------
+
+def corner_cases():
+    """Every product (CSR mm / dmm / dgm, BCSR dmm / dmm_csr) x allow_incomplete in {0,1} x the pattern relations that
+    steer the branches of the merge loop: the column X lacks lies to the RIGHT of every stored column of the row (the
+    "row of X exhausted" branch), to the left / in the middle (the "X > B" branch), an empty row of X, empty rows of D,
+    A, B, X exhausted by its last entry, complete and richer patterns.  Values are fixed non-zero rationals."""
+    cnt = [0]
+
+    def val():
+        cnt[0] += 1
+        return Fraction(cnt[0] % 7 + 1, cnt[0] % 3 + 1) * (-1 if cnt[0] % 4 == 0 else 1)
+
+    def mk(rows, cols, pat, bh=1, bw=1, blocked=False):
+        vals = [[[val() for _ in range(bh * bw)] if blocked else val() for _ in r] for r in pat]
+        return Mat(rows, cols, pat, vals, bh, bw, blocked)
+
+    # name: (D pattern 2x2, A pattern 2x2, B pattern 2x3, X pattern 2x3)
+    full = [[0, 1, 2], [0, 1, 2]]
+    scen = {
+        "right-missing": ([[0, 1], [1]], [[0], [1]], [[0, 2], [1, 2]], [[0, 1], [1]]),
+        "right-missing-row0-only": ([[0, 1], [1]], [[0], [1]], [[0, 2], [1, 2]], [[0, 1], [1, 2]]),
+        "x-row-exhausted-by-last": ([[0, 1], [1]], [[0], [1]], [[0, 2], [1, 2]], [[0], [1]]),
+        "empty-x-row": ([[0, 1], [1]], [[0], [1]], [[0, 2], [1, 2]], [[0, 1, 2], []]),
+        "empty-x-row0": ([[0, 1], [1]], [[0], [1]], [[0, 2], [1, 2]], [[], [1, 2]]),
+        "empty-d-row": ([[0, 1], []], [[0], [1]], [[0, 2], [1, 2]], [[0, 1, 2], [0]]),
+        "empty-a-row": ([[0, 1], [1]], [[0], []], [[0, 2], [1, 2]], [[0, 2], [1]]),
+        "empty-b-row": ([[0, 1], [1]], [[0], [1]], [[0, 2], []], [[0, 2], [1]]),
+        "empty-b-row-x-richer": ([[0, 1], [1]], [[0], [1]], [[], [1, 2]], full),
+        "left-missing": ([[0, 1], [1]], [[0], [1]], [[0, 2], [1, 2]], [[1, 2], [1, 2]]),
+        "middle-missing": ([[0, 1], [1]], [[0], [1]], [[0, 1, 2], [1]], [[0, 2], [1]]),
+        "complete-exact": ([[0, 1], [1]], [[0], [1]], [[0, 2], [1, 2]], [[0, 1, 2], [1, 2]]),
+        "complete-richer": ([[0, 1], [1]], [[0], [1]], [[0, 2], [1, 2]], full),
+        "a-offdiag": ([[0], [1]], [[1], [0]], [[0], [2]], [[2], [0]]),
+        "a-offdiag-right-missing": ([[0], [1]], [[1], [0]], [[0], [1, 2]], [[1], [0]]),
+    }
+    out = []
+    for name, (dp, ap, bp, xp) in scen.items():
+        for allow in (0, 1):
+            alpha = fs(Fraction(2))
+            for op in ("mm", "dmm", "dgm"):
+                if op != "dmm" and name.startswith(("empty-a", "a-offdiag")):
+                    continue
+                X, D, B = mk(2, 3, xp), mk(2, 2, dp), mk(2, 3, bp)
+                if op == "mm":
+                    out.append("csr 64 mm %s %s %s %s %d" % (X.tok(), D.tok(), B.tok(), alpha, allow))
+                elif op == "dgm":
+                    out.append("csr 32 dgm %s %s %s %s %s %d" % (X.tok(), D.tok(), fl([val(), val()]), B.tok(), alpha, allow))
+                else:
+                    out.append("csr 64 dmm %s %s %s %s %s %d" % (X.tok(), D.tok(), mk(2, 2, ap).tok(), B.tok(), alpha, allow))
+            for bs in (2, 3):
+                X = mk(2, 3, xp, bs, bs, True)
+                out.append("bcsr 64 %d %d dmm %s %s %s %s %s %d" % (
+                    bs, bs, X.tok(), mk(2, 2, dp, bs, bs, True).tok(), mk(2, 2, ap, bs, bs, True).tok(),
+                    mk(2, 3, bp, bs, bs, True).tok(), alpha, allow))
+                X = mk(2, 3, xp, bs, bs, True)
+                out.append("bcsr 32 %d %d dmm_csr %s %s %s %s %s %d" % (
+                    bs, bs, X.tok(), mk(2, 2, dp).tok(), mk(2, 2, ap, bs, bs, True).tok(), mk(2, 3, bp).tok(), alpha, allow))
+    return out
+
+
+# ---------------------------------------------------------------------------------------------
 # independent oracle: dense Fraction meaning of the stored arrays, the textbook formula, restricted to the pattern
 # ---------------------------------------------------------------------------------------------
 
@@ -601,6 +669,9 @@ def oracle(case, out):
         if op == "diag":
             if A.rows != A.cols:
                 return None if out == "ABORT" else "non-square matrix not reported: " + out[:80]
+            if A.bh != A.bw:
+                # %dx%d blocks: the scalar matrix is not square, it has no main diagonal (c03-edge:F4)
+                return None if out == "ABORT" else "non-square blocks (the scalar matrix is not square) not reported: " + out[:60]
             if is_abnormal(out):
                 return "extract_diag ended with " + out
             r = expect_vec(out, [A.get(i, i) for i in range(nr)], "diag")
@@ -743,6 +814,8 @@ def edge_class(case):
         return None
     if any(m.nb == 0 for m in c.mats.values()):
         return "F3"
+    if c.fmt == "bcsr" and c.op == "diag" and c.bh != c.bw:
+        return "F4"
     return None
 
 
@@ -756,7 +829,11 @@ def signature(case, out, why):
 
 def model_filter(case):
     # on entry-free operands the model returns the zero results (the implementation crashes: c03-edge:F3)
-    return edge_class(case) != "F3"
+    k = edge_class(case)
+    if k == "F4":
+        # bh < bw: the model reproduces the returned block-diagonal values; bh > bw: the real code reads outside the block
+        return Case(case).bh < Case(case).bw
+    return k != "F3"
 
 
 def empty_mat(rows, cols, bh=1, bw=1, blocked=False):
@@ -765,6 +842,12 @@ def empty_mat(rows, cols, bh=1, bw=1, blocked=False):
 
 def gen_edge_case(rng, sizes):
     it = rng.choice([32, 64])
+    if rng.random() < 0.12:
+        # F4: extract_diag with non-square blocks
+        bh, bw = rng.choice([(2, 3), (3, 2)])
+        n = rdim(rng, sizes)
+        A = gen_mat(rng, n, n, bh, bw, True, style=rng.choice(["diag", "diagplus", "full", "sparse"]))
+        return "bcsr %d %d %d diag %s" % (it, bh, bw, A.tok())
     # F3: entry-free operands
     blocked = rng.random() < 0.25
     bh, bw = rng.choice(SQUARE_BLOCKS) if blocked else (1, 1)
@@ -815,6 +898,8 @@ def gen_edge_case(rng, sizes):
 
 
 EDGE_CORPUS = [
+    "bcsr 64 3 2 diag 2 2 3 0 1 2 2 0 1 12 1/1 2/1 3/1 4/1 5/1 6/1 7/1 8/1 9/1 10/1 11/1 12/1",
+    "bcsr 64 2 3 diag 2 2 3 0 1 2 2 0 1 12 1/1 2/1 3/1 4/1 5/1 6/1 7/1 8/1 9/1 10/1 11/1 12/1",
     "csr 64 lump 2 2 3 0 0 0 0 0",
     "csr 64 rownorm2sqr 2 2 3 0 0 0 0 0",
     "csr 64 diag 2 2 3 0 0 0 0 0",
@@ -838,7 +923,7 @@ def main(argv):
         v = [{"property": PROP, "kind": "harness-build-failure", "detail": err, "failing_input": None,
               "broken": "harness c03 does not compile against the current tree"}]
         return vlib.finish(PROP, args.tier, args.seed, t0, lean, [], [], v, [])
-    corpus = list(CORPUS)
+    corpus = list(CORPUS) + corner_cases()
     cdir = os.path.join(vlib.CORPUS, "c03")
     if os.path.isdir(cdir):
         for f in sorted(os.listdir(cdir)):
@@ -873,6 +958,7 @@ def main(argv):
         "Index modelled as unbounded Nat (no 32/64-bit overflow at the sizes generated)",
         "CSR/BCSR operands have strictly increasing column indices per row (as every FEAT assembly produces)",
         "square roots: the deterministic q_sqrt of exact_q.hpp / Proto.qsqrt (float conformance T3 not run)",
-        "known finding (stream `edge`, judged on every run, FINDINGS_C03.md): c03-edge:F3 entry-free operands"],
+        "known findings (stream `edge`, judged on every run, FINDINGS_C03.md): c03-edge:F3 entry-free operands, "
+        "c03-edge:F4 BCSR extract_diag with non-square blocks"],
         extra_cov={"rule": stats_rule})
     return rc
